@@ -584,3 +584,9 @@ PROPS = {
                  "/proc/self/fd and /proc/self/maps as the account of descriptors and mappings"],
     ),
 }
+
+# Drivers of other properties whose cases also bear on a property (run by bin/check with the
+# other property's model, same verdict rules).
+# C02: an operation receives its own result only if the completion entry it is read from is not
+# given back to the kernel first (the completion-ring mechanics of C05: seed C02-c).
+PROPS["C02"]["also_drivers"] = ["C05"]
